@@ -110,6 +110,8 @@ def u_getattr_spec(E, st, args, kw):
     if not isinstance(x, VOpaque):
         raise Unsupported("getattr on %r" % (x,))
     name = n.e if isinstance(n, VStr) else unbox_str(n.e)
+    if isinstance(n, VStr) and z3.is_string_value(z3.simplify(n.e)) and z3.simplify(n.e).as_string() == "encode":
+        return [Res(st, VFunc("U.str_encode:" + str(x.e)))] if False else [Res(st, VBound(x, "encode"))]
     c = getattr(E, "cur_contract", None)
     if c is not None and hasattr(c, "opaque_getattr"):
         r = c.opaque_getattr(E, st, x, n, args[2] if len(args) > 2 else None)
@@ -273,3 +275,15 @@ class LockModel:
 def u_instance_of(E, st, args, kw):
     v, c = args
     return [Res(st, VBool(instance_of(box(v), c.e)))]
+
+
+@R.method("VOpaque", "encode")
+def u_encode(E, st, recv, args, kw):
+    """x.encode() on an opaque value: bytes if x is a str, AttributeError/TypeError otherwise (not user code)"""
+    out = []
+    for s2, ok in E.branch(st, is_str(recv.e)):
+        if ok:
+            out.append(Res(s2, VBytes(fresh("encoded", BytesS))))
+        else:
+            out.append(E.raise_(s2, "builtins.AttributeError"))
+    return out
